@@ -119,7 +119,12 @@ def run(seed, tier, lean) -> Result:
     cases = []
     for i in range(n):
         r = random.Random(rnd.getrandbits(48))
-        spec = LangGen(r, knobs={'sibling_sets': True, 'dup_assoc_names': 0.4}).gen()
+        # every fifth language has associations whose two ends carry the same role name (`Host [peer] <-- L --> [peer]
+        # Router`): fine for the language graph and its lookups; no class / model can be built for them (KF-C06-1), so
+        # the over-approximation part is skipped for these
+        same_ends = i % 5 == 4
+        spec = LangGen(r, knobs={'sibling_sets': True, 'dup_assoc_names': 0.4, **({'same_field_both_ends': 0.6} if same_ends else {})}).gen()
+        same_ends = same_ends and any(d['leftField'] == d['rightField'] for d in spec['associations'])
         fields = sorted({d['leftField'] for d in spec['associations']} | {d['rightField'] for d in spec['associations']})
         types = [a['name'] for a in spec['assets']]
         quads = []
@@ -128,10 +133,10 @@ def run(seed, tier, lean) -> Result:
             quads.append([d['leftField'], d['rightField'], r.choice(subsL), r.choice(subsR)])
             quads.append([d['rightField'], d['leftField'], r.choice(subsR), r.choice(subsL)])
         for _ in range(10): quads.append([r.choice(fields), r.choice(fields), r.choice(types + ['Nope']), r.choice(types)])
-        cases.append((spec, quads, r))
-    model = run_driver([{'op': 'langgraph', 'case': i, 'lang': lang_payload(s), 'lookups': q} for i, (s, q, r) in enumerate(cases)]) if lean['build_ok'] else None
+        cases.append((spec, quads, r, same_ends))
+    model = run_driver([{'op': 'langgraph', 'case': i, 'lang': lang_payload(s), 'lookups': q} for i, (s, q, r, _) in enumerate(cases)]) if lean['build_ok'] else None
     mut_cases = []
-    for i, (spec, quads, r) in enumerate(cases):
+    for i, (spec, quads, r, same_ends) in enumerate(cases):
         res.evaluations += 1
         try:
             obs, lg = impl_obs(spec, quads)
@@ -140,7 +145,8 @@ def run(seed, tier, lean) -> Result:
                                             fingerprint='C15:wellformed-rejected:' + type(e).__name__, replay={'spec': spec})); continue
         probs = reference_probs(spec, obs, quads)
         inst = None
-        if not probs:
+        if same_ends: res.bump('same role name on both ends (lookups only)')
+        if not probs and not same_ends:
             try: probs, inst = overapprox_probs(spec, lg, r)
             except Exception as e: res.notes.append('attack graph generation failed in C15: ' + type(e).__name__)
         depth2 = any(len(anc(spec, a['name'])) >= 3 for a in spec['assets'])
